@@ -94,7 +94,17 @@ def decision_table(report, rule, finfo, atoms, classify, spec, consistent=None,
     n_val += 1
     dec = make_decider(val, classify,
                        on_unknown=lambda e: unknown.setdefault(norm(e), e))
-    for p in cfgm.walk_paths(g, dec, follow_exc=follow_exc):
+    val_paths = cfgm.walk_paths(g, dec, follow_exc=follow_exc)
+    if not val_paths and 'no-terminating-path' not in seen_cat:
+      seen_cat['no-terminating-path'] = 1
+      bad += 1
+      report.violation(
+          rule, finfo.qualname, 'table|no-terminating-path', finfo.node,
+          'under valuation {%s} no path through %s reaches an exit within two '
+          'trips round any loop: the function cannot leave its loop (e.g. the '
+          'return that ends the iteration is gone)' %
+          (', '.join('%s=%s' % (k, val[k]) for k in atoms), finfo.qualname))
+    for p in val_paths:
       n_paths += 1
       err = spec(val, p)
       if err:
